@@ -126,9 +126,9 @@ CHECKS = {
         technique="TLA+ contract checked by TLC on an abstract domain + TLC trace validation of frames recorded from the real gateway against GQL!Ref, with an R7 cross-check of the harness's evaluator on every event"),
     "C18": dict(
         category="model_checking",
-        text="SubscriptionImpl.tla: one subscription on one client connection as the code is written - connection handler (stop, terminate, malformed message, abrupt disconnect; deferred exit: close frame, conn.Close, CleanAll), Listen (select on respCh/closeCh, prepare, write, deferred close of queryerCloseCh), Close, the upstream reader (read; select{respCh<-payload | <-queryerCloseCh}; exit path) and closer of MultiOpQueryer.Subscribe, plus the start whose upstream handshake fails - one action per step between two hook points, over 9 client scripts x 10 upstream scripts (event, error message, complete, disconnect). TLC: NoLeak (at every state where nothing can happen any more, an ended subscription/connection has no goroutine and no upstream connection left), termination EventuallyGone under weak fairness, TypeOK; SubscriptionFrames.tla: frames of concurrent writers reach the wire intact iff handed over in one Write call or under a lock. Binding: behaviours of the model (complete edge cover of its state graph in the thorough tier + sampled maximal paths) are forced on the real gateway over real websocket/TCP connections by parking every goroutine at its hook points and comparing the parked set with the model's program counters after every action; verdict from the real process: death of the (child) process, goroutines or upstream connection left after the end, malformed frame at the client.",
+        text="SubscriptionImpl.tla: one subscription on one client connection as the code is written - connection handler (stop, terminate, malformed message, abrupt disconnect; deferred exit: close frame, conn.Close, CleanAll), Listen (select on respCh/closeCh, prepare, write, deferred close of queryerCloseCh), Close, the upstream reader (read; select{respCh<-payload | <-queryerCloseCh}; exit path) and closer of MultiOpQueryer.Subscribe, plus the start whose upstream handshake fails - one action per step between two hook points, over 12 client scripts (stop, a start under the id in use, terminate, malformed message, abrupt disconnect) x 10 upstream scripts (event, error message, complete, disconnect). TLC: NoLeak (at every state where nothing can happen any more, an ended subscription/connection has no goroutine and no upstream connection left), termination EventuallyGone under weak fairness, TypeOK; SubscriptionFrames.tla: frames of concurrent writers reach the wire intact iff handed over in one Write call or under a lock. Binding: behaviours of the model (complete edge cover of its state graph in the thorough tier + sampled maximal paths) are forced on the real gateway over real websocket/TCP connections by parking every goroutine at its hook points and comparing the parked set with the model's program counters after every action; verdict from the real process: death of the (child) process, goroutines or upstream connection left after the end, malformed frame at the client.",
         ref="DESIGN.md section 6 C18",
-        note="One subscription per connection in the forced behaviours; two concurrent writers (two listeners; listener + heartbeat in the thorough tier) for frames; the select between a ready event and a closed closeCh cannot be forced (TLC shows no state is lost). The model is of the protocol after the fix: commits; SubscriptionImplOld.tla keeps the model of the protocol as found, whose TLC counterexamples were reproduced on the code.",
+        note="One subscription per connection in the forced behaviours (the operation a restart starts runs freely); two concurrent writers (two listeners, events > 4 KiB, listener + heartbeat) for frames, gated at the connection's Write calls only; free-running stress over 1-3 connections with several subscriptions each, restarts under ids in use, incomplete frames; when the code leaves the model's path without doing anything the property forbids the behaviour is judged by its end state and SPEC-DRIFT is noted; the select between a ready event and a closed closeCh cannot be forced (TLC shows no state is lost). The model is of the protocol after the fix: commits; SubscriptionImplOld.tla keeps the model of the protocol as found, whose TLC counterexamples were reproduced on the code.",
         technique="TLA+ model of the teardown protocol checked by TLC (safety at quiescence + liveness) whose behaviours are replayed into the real gateway through a gate scheduler on build-tagged hook points; TLC trace validation of the recorded Write calls"),
 }
 
